@@ -480,14 +480,46 @@ def keyframes(res):
     uio = engine.unit("src/engine/engine_io.c")
     usup = engine.unit(FILE)
     fns = {"mj_resetDataKeyframe": uio.funcs.get("mj_resetDataKeyframe"), "mj_setKeyframe": usup.funcs.get("mj_setKeyframe")}
-    for fname, fn in fns.items():
-        if fn is None:
+    from .. import modref as _mr
+    for fname, fn0 in fns.items():
+        if fn0 is None:
             raise AnalysisError(f"anchor {fname} not found")
+        # the key arrays may be handled by the function itself or by a same-TU callee it hands the key index to
+        fn = fn0
+        unit_ = uio if fname == "mj_resetDataKeyframe" else usup
+        if not any(n.get("k") == "MemberExpr" and (n.get("n") or "").startswith("key_") for n in cir.walk(fn0)):
+            for c in cir.calls(fn0):
+                cal = unit_.funcs.get(cir.callee(c))
+                if cal is not None and any(n.get("k") == "MemberExpr" and (n.get("n") or "").startswith("key_") for n in cir.walk(cal)):
+                    fn = cal
+                    break
         file = fn.get("file") or "?"
         used = {}
         for n in cir.walk(fn):
             if n.get("k") == "MemberExpr" and (n.get("n") or "").startswith("key_"):
                 used.setdefault(n.get("n"), n)
+        if fname == "mj_resetDataKeyframe":
+            # the loaded keyframe values must be the last word: nothing later in that function may write the same mjData
+            # field again (e.g. default initialisation of mocap poses placed after the keyframe load)
+            loads = {}
+            for c in cir.calls(fn):
+                at = cir.args(c)
+                if len(at) >= 2 and "m->key_" in cir.text(at[1]):
+                    rf = _mr.root_field(at[0])
+                    if rf and rf[0] == "mjData":
+                        loads[rf[1]] = c.get("line")
+            for n in cir.walk(fn):
+                if n.get("k") == "BinaryOperator" and n.get("op") == "=" and "m->key_" in cir.text(cir.kids(n)[1]):
+                    rf = _mr.root_field(cir.kids(n)[0])
+                    if rf and rf[0] == "mjData":
+                        loads[rf[1]] = n.get("line")
+            for e in _mr.events(fn, {"mjData"}):
+                if e["field"] in loads and e["kind"] in ("assign", "elem", "pass", "addr") and e["line"] > loads[e["field"]]:
+                    res.bad("R-KEYFRAME", f"{fname}:{e['field']}:overwritten", file, e["line"],
+                            f"d->{e['field']} is written again (line {e['line']}) after the keyframe value was loaded into it (line "
+                            f"{loads[e['field']]}): mj_resetDataKeyframe would not yield the keyframe's value")
+            for f_ in loads:
+                res.ok("R-KEYFRAME", f"{fname}:{f_}:last-write", None)
         for kf in keys:
             construct = f"{fname}:{kf}"
             if kf not in used:
